@@ -335,6 +335,25 @@ def borrow_programs():
          "\nformat!(\"{:?}\", x)"),
     ]
     more += [
+        # a block operand of `->` whose value is an FnMut closure borrowing caller locals mutably: `-> f` CALLS f with the value, and a
+        # callable that is the value of a block can be called mutably (no Fn / FnOnce-only demand appears)
+        ("block-fnmut-then",
+         "let mut hits = 0i32; let mut left = 0i32;\n",
+         "join! { lg(\"0.0.i\", 1) -> { let r = &mut hits; move |v: i32| { *r += 1; v + 1 } } ~-> { let r = &mut left; move |v: i32| { *r += 10; v + 1 } }, 2 }",
+         "{ let c0 = { let r = &mut hits; move |v: i32| { *r += 1; v + 1 } }; let a = ({ c0 })(lg(\"0.0.i\", 1)); let b = 2; let c1 = { let r = &mut left; move |v: i32| { *r += 10; v + 1 } }; let a = ({ c1 })({ a }); (a, b) }",
+         "\nformat!(\"{:?} hits={} left={}\", x, hits, left)"),
+        ("block-fnmut-then-try",
+         "let mut hits = 0i32; let mut left = 0i32;\n",
+         "try_join! { Some(lg(\"0.0.i\", 1)) -> { let r = &mut hits; move |o: Option<i32>| { *r += 1; o } } ~-> { let r = &mut left; move |o: Option<i32>| { *r += 10; o.map(|v| v + 1) } }, Some(2) }",
+         "{ let c0 = { let r = &mut hits; move |o: Option<i32>| { *r += 1; o } }; let a = ({ c0 })(Some(lg(\"0.0.i\", 1))); let b = Some(2); let c1 = { let r = &mut left; move |o: Option<i32>| { *r += 10; o.map(|v| v + 1) } }; let a = ({ c1 })({ a }); match (a, b) { (Some(a), Some(b)) => Some((a, b)), _ => None } }",
+         "\nformat!(\"{:?} hits={} left={}\", x, hits, left)"),
+        ("block-fnmut-then-spawnless-step",
+         "let mut hits = 0i32;\n",
+         "join_spawn! { lg(\"0.0.i\", 1) ~-> { let r = &mut hits; move |v: i32| { *r += 1; v + 1 } }, 2 }",
+         "{ let a = lg(\"0.0.i\", 1); let b = 2; let c1 = { let r = &mut hits; move |v: i32| { *r += 1; v + 1 } }; let a = ({ c1 })({ a }); (a, b) }",
+         "\nformat!(\"{:?} hits={}\", x, hits)"),
+    ]
+    more += [
         # a bare `move` closure takes its captures where it is written: after the initial expression used the value
         ("move-closure-after-use",
          "let data = String::from(\"abc\");\n",
